@@ -21,6 +21,8 @@ type c20LiveCase struct {
 	Cmds      []uint16 `json:"commands"`
 	Pipeline  bool     `json:"pipelined"`
 	Predictor int      `json:"predictor_version"` // version of the simulator instance that predicts the replies (0 = the generating one)
+	// Custom[i] non-nil: frame i carries this custom body (possibly one its own message type cannot parse) instead of the default one
+	Custom []kit.Hex `json:"custom_bodies,omitempty"`
 }
 
 var liveCmds = []uint16{0x0002, 0x0100, 0x0102, 0x0200, 0x0704, 0x1003, 0x1210, 0x1211, 0x1212}
@@ -39,6 +41,14 @@ func genC20Live(t *rapid.T) c20LiveCase {
 	n := rapid.IntRange(1, 10).Draw(t, "n")
 	for i := 0; i < n; i++ {
 		c.Cmds = append(c.Cmds, rapid.SampledFrom(liveCmds).Draw(t, "cmd"))
+		var custom kit.Hex
+		if rapid.IntRange(0, 3).Draw(t, "custom") == 0 {
+			custom = kit.Hex(rapid.SliceOfN(rapid.Byte(), 0, 40).Draw(t, "custom_body"))
+			if custom == nil {
+				custom = kit.Hex{}
+			}
+		}
+		c.Custom = append(c.Custom, custom)
 	}
 	c.Predictor = rapid.SampledFrom([]int{0, 0, 1, 2, 3}).Draw(t, "predictor")
 	return c
@@ -54,11 +64,34 @@ func checkC20Live(c c20LiveCase, _ *kit.Collector) kit.Result {
 		res.Labels = append(res.Labels, fmt.Sprintf("predictor_version_%d", c.Predictor))
 	}
 	var frames, want [][]byte
+	nextPlatformSerial := 0
 	for i, cmd := range c.Cmds {
 		f := term.CreateDefaultCommandData(consts.JT808CommandType(cmd))
+		if i < len(c.Custom) && c.Custom[i] != nil {
+			f = term.CreateCommandData(consts.JT808CommandType(cmd), append([]byte(nil), c.Custom[i]...))
+			res.Labels = append(res.Labels, "custom_body")
+		}
 		frames = append(frames, f)
-		want = append(want, pred.ExpectedReply(uint16(i), hex.EncodeToString(f)))
+		w := pred.ExpectedReply(uint16(nextPlatformSerial), hex.EncodeToString(f))
+		if w != nil {
+			nextPlatformSerial++
+		}
+		want = append(want, w)
 		res.Labels = append(res.Labels, fmt.Sprintf("cmd_%04x", cmd))
+	}
+	// a frame for which no reply is predicted must get none: the server's frames are compared with the non-empty predictions in order
+	answered := 0
+	var wantFrames [][]byte
+	var wantIdx []int
+	for i, w := range want {
+		if w != nil {
+			answered++
+			wantFrames = append(wantFrames, w)
+			wantIdx = append(wantIdx, i)
+		}
+	}
+	if answered < len(want) {
+		res.Labels = append(res.Labels, "no_reply_predicted")
 	}
 	steps := []Step{{Op: "dial"}}
 	if c.Pipeline {
@@ -71,11 +104,15 @@ func checkC20Live(c c20LiveCase, _ *kit.Collector) kit.Result {
 			steps = append(steps, Step{Op: "write", Hex: all[:n]})
 			all = all[n:]
 		}
-		steps = append(steps, Step{Op: "wait_frames", N: len(frames), DeadlineMs: 6000})
+		steps = append(steps, Step{Op: "wait_frames", N: answered, DeadlineMs: 6000})
 		res.Labels = append(res.Labels, "pipelined")
 	} else {
+		n := 0
 		for i, f := range frames {
-			steps = append(steps, Step{Op: "write", Hex: f}, Step{Op: "wait_frames", N: i + 1, DeadlineMs: 5000})
+			if want[i] != nil {
+				n++
+			}
+			steps = append(steps, Step{Op: "write", Hex: f}, Step{Op: "wait_frames", N: n, DeadlineMs: 5000})
 		}
 	}
 	steps = append(steps, Step{Op: "pause", PauseUs: 20000}, Step{Op: "close", Mode: "fin"})
@@ -97,13 +134,13 @@ func checkC20Live(c c20LiveCase, _ *kit.Collector) kit.Result {
 			return res
 		}
 	}
-	if len(got) != len(want) {
-		res.Err = kit.Fail("server sent %d frames for %d reply-bearing simulator frames", len(got), len(want))
+	if len(got) != len(wantFrames) {
+		res.Err = kit.Fail("server sent %d frames, the simulator predicts %d replies for these %d frames", len(got), len(wantFrames), len(want))
 		return res
 	}
-	for i := range want {
-		if !bytes.Equal(got[i], want[i]) {
-			res.Err = kit.Fail("message %d (cmd %#04x, version %d, phone %q): server replied %x, ExpectedReply(%d, frame) = %x", i, c.Cmds[i], c.Version, c.Phone, got[i], i, want[i])
+	for k := range wantFrames {
+		if i := wantIdx[k]; !bytes.Equal(got[k], wantFrames[k]) {
+			res.Err = kit.Fail("message %d (cmd %#04x, version %d, phone %q): server replied %x, ExpectedReply = %x", i, c.Cmds[i], c.Version, c.Phone, got[k], wantFrames[k])
 			return res
 		}
 	}
